@@ -457,9 +457,15 @@ def run(repo: Repo, ctx) -> None:
         if isinstance(n, ast.If) and norm(n.test) == 'self._nacquires' \
                 and any('_maybe_schedule_tick' in norm(s) for s in n.body):
             ok = True
-    first = [s for s in tick.node.body if not isinstance(s, ast.Expr)
-             or not isinstance(s.value, ast.Constant)]
-    ok = ok and norm(first[0]) == 'self._htick = None'
+    # the handle is cleared on every path before the tick can be re-armed
+    gt = CFG(tick.node, raise_pred=lambda e: False, assert_raises=False)
+    clr = [n.id for n in gt.nodes if n.kind == 'stmt'
+           and norm(n.ast) == 'self._htick = None']
+    rearm = [n.id for n in gt.nodes if any(
+        norm(c.func) == 'self._maybe_schedule_tick'
+        for c in gt.node_calls(n))]
+    ok = ok and bool(clr) and bool(rearm) and all(
+        gt.always_before(r, clr) for r in rearm)
     ctx.ob('C16.R5', f'{short(tick)}:reschedules', ok,
            '_tick does not clear its handle and reschedule itself while '
            'acquires are outstanding', tick.loc,
